@@ -178,14 +178,21 @@ Write(k, v) ==
         /\ Log([a |-> IF v = Tomb THEN "Delete" ELSE "Put", k |-> k, v |-> v, rot |-> st.rot])
   /\ UNCHANGED <<lv, latest, flush, compQ, comp, nextTid, ckpts, pendRm, saves, files, returned, rd, snapAt, nrd, nck, nre, nrt, zombies, ngc, dropped, nfl, objs>>
 
-\* Get: two captures (level list, memtable list) with background steps possible in between
-GetBegin(k) ==
+\* Get: two captures (level list, memtable list) with background steps possible in between.
+\* `at` names where the real reader is held while the background steps of the behaviour run: "between" = between the
+\* memtable read and the capture of the level list (db.go), "snap" = inside memtable.List.Get, holding its snapshot of
+\* the memtable list but before reading the first memtable. What the read must return does not depend on it (the
+\* value is history only: not part of rd, so not part of the state space).
+GetHolds == {"between", "snap"}
+ScanHolds == {"between", "returned", "mid"}
+GetBeginAt(k, at) ==
   /\ ~rd.on /\ nrd < MaxReads /\ nrd' = nrd + 1
   /\ rd' = IF Dev_GetLevelsFirst
            THEN [on |-> TRUE, kind |-> "get", arg |-> {k}, capMem |-> <<>>, capLv |-> lv]
            ELSE [on |-> TRUE, kind |-> "get", arg |-> {k}, capMem |-> mem, capLv |-> <<>>]
-  /\ Log([a |-> "GetBegin", k |-> k])
+  /\ Log([a |-> "GetBegin", k |-> k, at |-> at])
   /\ UNCHANGED <<seq, mem, lv, latest, wal, flushQ, flush, compQ, comp, nextTid, ckpts, pendRm, saves, files, returned, oracle, snapAt, nops, nck, nre, nrt, zombies, ngc, dropped, nfl, objs>>
+GetBegin(k) == \E at \in GetHolds : GetBeginAt(k, at)
 
 ReadValue == LET k == CHOOSE k \in rd.arg : TRUE
                  m == IF Dev_GetLevelsFirst THEN mem ELSE rd.capMem
@@ -197,13 +204,16 @@ GetEnd ==
   /\ Log([a |-> "GetEnd", k |-> CHOOSE k \in rd.arg : TRUE, demanded |-> oracle[CHOOSE k \in rd.arg : TRUE], predicted |-> ReadValue])
   /\ UNCHANGED <<seq, mem, lv, latest, wal, flushQ, flush, compQ, comp, nextTid, ckpts, pendRm, saves, files, returned, oracle, snapAt, nops, nrd, nck, nre, nrt, zombies, ngc, dropped, nfl, objs>>
 
-ScanBegin(P) ==
+\* Scan holds: "between" = between the two captures inside DB.ScanPrefix; "returned" = ScanPrefix has returned its
+\* iterator, nothing pulled yet; "mid" = the consumer has pulled the first entry (or reached the end) and pauses.
+ScanBeginAt(P, at) ==
   /\ ~rd.on /\ nrd < MaxReads /\ nrd' = nrd + 1
   /\ rd' = IF Dev_GetLevelsFirst
            THEN [on |-> TRUE, kind |-> "scan", arg |-> P, capMem |-> <<>>, capLv |-> lv]
            ELSE [on |-> TRUE, kind |-> "scan", arg |-> P, capMem |-> mem, capLv |-> <<>>]
-  /\ Log([a |-> "ScanBegin", p |-> P])
+  /\ Log([a |-> "ScanBegin", p |-> P, at |-> at])
   /\ UNCHANGED <<seq, mem, lv, latest, wal, flushQ, flush, compQ, comp, nextTid, ckpts, pendRm, saves, files, returned, oracle, snapAt, nops, nck, nre, nrt, zombies, ngc, dropped, nfl, objs>>
+ScanBegin(P) == \E at \in ScanHolds : ScanBeginAt(P, at)
 
 ScanValue == LET m == IF Dev_GetLevelsFirst THEN mem ELSE rd.capMem
                  l == IF Dev_GetLevelsFirst THEN rd.capLv ELSE lv
@@ -242,7 +252,7 @@ FlushSwap ==
 
 \* background compaction (abstract policy: when L0 reaches the trigger, merge
 \* all of L0 and L1 into one L1 table; tombstones dropped because L1 is the base)
-CompactPick ==
+CompactPickO(overlap) ==
   /\ compQ > 0 /\ ~comp.on
   /\ compQ' = compQ - 1
   /\ IF Len(lv[1]) >= L0Trigger
@@ -256,9 +266,14 @@ CompactPick ==
              /\ files' = IF out = <<>> THEN files
                          ELSE [files EXCEPT !.sst = Override(@, [t \in {nextTid} |-> merged])]
      ELSE UNCHANGED <<comp, nextTid, files, zombies, ngc, dropped, nfl>>
-  /\ Log([a |-> "CompactPick"])
+  \* overlap: the replayer lets a flush task that is waiting to start build its table while this compaction is creating
+  \* its first output file (the two task queues run concurrently in the code; both take table ids from one TableWriter).
+  \* A scheduling hint in the history, not state: the flush still swaps at its own FlushSwap step.
+  /\ Log([a |-> "CompactPick", overlap |-> overlap])
   /\ UNCHANGED <<seq, mem, lv, latest, wal, flushQ, flush, ckpts, pendRm, saves, returned, rd, oracle, snapAt, nops, nrd, nck, nre, nrt, zombies, ngc, dropped, nfl>>
   /\ objs' = IF Len(lv[1]) >= L0Trigger THEN objs \cup {nextTid} ELSE objs
+
+CompactPick == \E overlap \in BOOLEAN : CompactPickO(overlap)
 
 CompactSwap ==
   /\ comp.on
@@ -272,16 +287,21 @@ CompactSwap ==
 
 -----------------------------------------------------------------------------
 \* checkpoints
-Checkpoint ==
+CheckpointR(race) ==
   /\ ~rd.on /\ nck < MaxCkpt /\ nck' = nck + 1
   /\ LET id == nck + 1 + 10 * nre    \* caller-chosen, never repeated
      IN /\ ckpts' = Append(ckpts, [id |-> id, lv |-> lv, latest |-> latest, walId |-> wal.id,
                                    after |-> latest, lastSeq |-> seq])
         /\ saves' = saves \cup {[id |-> id, walId |-> wal.id, content |-> WalContent(wal), stage |-> "wal"]}
         /\ snapAt' = Override(snapAt, [i \in {id} |-> oracle])
-        /\ Log([a |-> "Checkpoint", id |-> id, snap |-> oracle])
+        \* race: the replayer lets a flush / compaction parked before its swap go at the first storage call inside
+        \* DB.Checkpoint. Checkpoint is one critical section (db.mu), so the swap can only take effect after it: the
+        \* flag is a scheduling hint in the history, not state.
+        /\ Log([a |-> "Checkpoint", id |-> id, snap |-> oracle, race |-> race])
   /\ wal' = WalRotate(wal)
   /\ UNCHANGED <<seq, mem, lv, latest, flushQ, flush, compQ, comp, nextTid, pendRm, files, returned, rd, oracle, nops, nrd, nre, nrt, zombies, ngc, dropped, nfl, objs>>
+
+Checkpoint == \E race \in BOOLEAN : CheckpointR(race)
 
 SaveWal(sv) ==
   /\ sv \in saves /\ sv.stage = "wal"
